@@ -21,15 +21,22 @@ def expected_proj(e):
 
 
 def diff_fields(want, got):
-    return [k for k in want if want[k] != got.get(k)]
+    bad = [k for k in want if k != "schema" and want[k] != got.get(k)]
+    # schema IRIs: the report schema is always in the @context, the lexical schema only when there are results
+    ws = want["schema"]
+    if not want["results"]:
+        ws = {"alt": "alt", "altRep": "alt", "altLex": "default", "default": "default"}[ws]
+    if got.get("schema") != ws:
+        bad.append("schema")
+    return bad
 
 
 def run(tier):
     t0 = time.time()
     V = vlib.Verdict("C03")
     quick = tier == "quick"
-    nparts = 40
-    parts = [vlib.seed() % nparts, (vlib.seed() + 13) % nparts] if quick else list(range(nparts))
+    nparts = 400
+    parts = [vlib.seed() % nparts, (vlib.seed() * 7 + 13) % nparts] if quick else list(range(vlib.seed() % 10, nparts, 10))
     from concurrent.futures import ThreadPoolExecutor
     with ThreadPoolExecutor(max_workers=8) as ex:
         rs = list(ex.map(lambda p: vlib.run_tlc("rc_p%02d" % p, "ReportCases", CFG % {"part": p, "nparts": nparts},
@@ -69,12 +76,12 @@ def run(tier):
         "evaluations": len(rows) * 2, "distinct_nontrivial": nontriv,
         "rule": "scenarios enumerated by TLC (ReportCases.tla): every distribution of validations a, b and an undefined name over "
                 "the three level lists x which are defined x on which of two target nodes each fails x 8 report configurations "
-                "(102400 scenarios in 40 slices; %d slice(s) in this run); design facts (conforms iff no Violation result, "
+                "x 2 profile names x 4 clocks x 4 schema configurations (819200 scenarios in 400 slices; %d slice(s) in this run); design facts (conforms iff no Violation result, "
                 "warnings/infos never change conforms, configuration locality, result key iff results) checked on each; every "
                 "scenario rendered (level order / absent-vs-empty level by seed) and run through ValidateWithConfiguration and "
                 "CompileProfile+ValidateCompiledWithConfiguration; non-trivial = scenario with a non-empty result list"
                 % len(parts),
-        "exhaustive": not quick,
+        "exhaustive": False,
         "samples": [{"profile": c["profile"], "cfg": c["cfg"], "expect": expected_proj(c["expect"])} for c in cases[:: max(1, len(cases) // 4)]][:4],
         "checker_cmd": rs[0].cmd, "known_findings_hit": sorted(V.known_hits),
     }, time.time() - t0, violations=len(V.violations))
